@@ -59,6 +59,16 @@ NOTES = {
  "C15-4": "missed by C15 at first (no storage metrics wrapper, no oracle failure); every third fail-over now runs behind the production metrics wrapper with the engine's timestamp oracle failing once during the take-over (the failed attempt is repeated)",
  "C17-4": "missed by C17 at first (the second compaction always named the current revision); in a third of the cases it now names an older revision than the first one",
  "C18-4": "missed by C18 at first (the leader's answer was always complete or absent); matrix modes 'a 200 answer cut off half-way through its body' and 'a 200 answer whose body is not the revision document' were added. The second exposed defect 31 on the unchanged tree (fixed in 04202ba); the seed was rebased onto the fixed tree (patch.original.diff is the sub-agent's patch)",
+ "C02-5": "the same mechanism as seed C15-2 (leader flag raised before SetCurrentRevision), produced independently for C02; caught by C15's real-campaign cases; not by C02, whose workload has no election",
+ "C04-5": "the same mechanism as seeds C15-2 / C02-5, produced independently for C04; caught by C15's real-campaign cases",
+ "C05-5": "not caught by C05 itself (a role check in the native server, above the backend C05 drives); C18's role matrix catches it (follower-served-watch-from-own-history request=brain.Watch)",
+ "C06-5": "missed at first by every check (the real etcd proxy had only just been put under test and no watch through a follower started in the past); C18's production pairs now do list-then-watch through the follower: the watch must begin with the first change at or after its start revision. Not C06 (its observers talk to the leader's backend)",
+ "C08-5": "missed by C08 at first (compactions were sent to the backend, and only the older request was ever held); the overlapping-compactions cases now hold either request and send them through the native server's Compact handler in half of the cases",
+ "C09-5": "caught as it was (C09 second-order fault 'repair write unknown, not applied')",
+ "C13-5": "missed by C13 at first (range streams through the etcd Watch API were opened one at a time); every 4th case now streams all advertised pieces at the same time, one Watch stream per piece, and checks the watch id of every response",
+ "C16-5": "caught as it was (C16's unsupported family contains the supported shapes with other compare operators)",
+ "C18-5": "caught as it was (C18's role matrix: brain.ListPartition served without adopting the leader's revision)",
+ "C20-5": "missed by C20 and C05 at first (no watch ever had to catch up on more than 30 000 cached events); C05 got large catch-up cases; the blocked registration shows up as the driver's post-mortem 'stall request-never-returns' verdict",
  "C20-3": "missed by C20 at first: the node ends the process through klog.Fatal, which the driver used to classify as an inconclusive child death; the worker now lets klog FATAL lines through to stderr and the driver reports 'crash klog.Fatal in <file>' as a violation (except the deliberate 'leader lost' exit)",
 }
 for d in sorted(glob.glob('/verif/seeded/C*')):
